@@ -88,6 +88,10 @@ type getSSEConnection struct {
 	// Prevent concurrent write conflicts
 	writeLock sync.Mutex
 
+	// closed is set (under writeLock) when the handler that owns writer is about to return:
+	// a ResponseWriter must not be used after that.
+	closed bool
+
 	// Event ID generator, reuses existing sseResponder
 	sseResponder *sseResponder
 }
@@ -658,6 +662,14 @@ func (h *httpServerHandler) handleGet(ctx context.Context, w http.ResponseWriter
 	}
 	h.getSSEConnectionsLock.Unlock()
 	verifhook.Yield("get:deleted")
+
+	// A sender that looked this stream up before it was removed may still be about to write, or be
+	// stuck writing to a peer that takes no bytes. Fail the stuck write, wait for the writer in
+	// progress, and turn away the ones that follow: the ResponseWriter is not ours after we return.
+	_ = http.NewResponseController(w).SetWriteDeadline(time.Now())
+	conn.writeLock.Lock()
+	conn.closed = true
+	conn.writeLock.Unlock()
 	h.logger.Infof("GET SSE connection closed, session ID: %s", session.GetID())
 }
 
@@ -674,6 +686,9 @@ func (h *httpServerHandler) sendNotificationToGetSSE(sessionID string, notificat
 
 	conn.writeLock.Lock()
 	defer conn.writeLock.Unlock()
+	if conn.closed {
+		return fmt.Errorf("%w: %s", ErrSessionNotFound, sessionID)
+	}
 
 	// Use SSE responder to send notification
 	eventID, err := conn.sseResponder.sendNotification(conn.writer, notification)
@@ -786,6 +801,10 @@ func (h *httpServerHandler) SendRequest(ctx context.Context, sessionID string, r
 
 	// Send the request through GET SSE using the proper sendRequest method.
 	conn.writeLock.Lock()
+	if conn.closed {
+		conn.writeLock.Unlock()
+		return nil, fmt.Errorf("no GET SSE connection found for session: %s", sessionID)
+	}
 	eventID, err := conn.sseResponder.sendRequest(conn.writer, request)
 	if err != nil {
 		conn.writeLock.Unlock()
